@@ -220,6 +220,18 @@ class Engine(CoreMixin, ExprMixin, CallMixin, LibMixin, StmtMixin, ReMixin):
             g, sk = self.goal_term(expr, self.post_env(o.st), o.st, old=self.entry_state, result=val)
             site = ("ret%d" % o.site) if o.site is not None else "end"
             self.oblige(o.st, g, "%s#post.%s@%s" % (self.short, name, site), "ensures", self.curline, expr, sk)
+        for name, expr in con.ensures_local.items():
+            # postconditions that may mention the function's locals (evaluated in the state at the return)
+            site = ("ret%d" % o.site) if o.site is not None else "end"
+            if "@" in name:
+                name, only = name.split("@")
+                if only != site:
+                    continue
+            self.cur_clause = name
+            env = dict(o.st.env)
+            env.update(self.params_env)
+            g, sk = self.goal_term(expr, env, o.st, old=self.entry_state, result=val)
+            self.oblige(o.st, g, "%s#post.%s@%s" % (self.short, name, site), "ensures", self.curline, expr, sk)
         self.check_frame(o.st, "post")
 
     def apply_ghost_update(self, updates, st, val=None):
